@@ -60,10 +60,19 @@ func (p *ParserPlanner) Process(ctx *shared.PlannerContext,
 			if entry.Err != nil {
 				return nil
 			}
-			var err error
-			entry.Labels, err = parser(entry.Message, &entry.Labels)
+			// parse into a copy: a line the parser cannot read keeps its labels and stays in
+			// the stream (LogQL keeps such lines); it must not fail the whole query
+			labels := make(map[string]string, len(entry.Labels)+4)
+			for k, v := range entry.Labels {
+				labels[k] = v
+			}
+			labels, err := parser(entry.Message, &labels)
+			if err != nil {
+				return nil
+			}
+			entry.Labels = labels
 			entry.Fingerprint = fingerprint(entry.Labels)
-			return err
+			return nil
 		},
 		OnAfterEntriesSlice: func(entries []shared.LogEntry, c chan []shared.LogEntry) error {
 			c <- entries
